@@ -737,3 +737,31 @@ func init() {
 	mut("C10", "outline decoder returns early for an outline without hashes (count cross-check skipped)", true, "bound-guard|outline-",
 		Edit{"gateway/encoding.go", kinds, "\tif len(hashes) == 0 {\n\t\treturn\n\t}\n" + kinds})
 }
+
+func init() {
+	// ---- fifth benign round: accepted restylings with a broken twin ----
+	pow := "\tif s.childHeight() < s.Network.HardforkV2.FinalCutHeight {\n\t\treturn s.ChildTarget\n\t}\n\treturn invTarget(s.Difficulty.n)\n"
+	mut("C13", "(benign) PoWTarget tests for the post-cut era first", false, "",
+		Edit{"consensus/state.go", pow, "\tif s.childHeight() >= s.Network.HardforkV2.FinalCutHeight {\n\t\treturn invTarget(s.Difficulty.n)\n\t}\n\treturn s.ChildTarget\n"})
+	mut("C13", "PoWTarget tests for the post-cut era first and returns the recorded target there", true, "era-dispatch|PoWTarget-era",
+		Edit{"consensus/state.go", pow, "\tif s.childHeight() >= s.Network.HardforkV2.FinalCutHeight {\n\t\treturn s.ChildTarget\n\t}\n\treturn invTarget(s.Difficulty.n)\n"})
+	v2fc := "func validateV2FileContracts(ms *MidState, txn types.V2Transaction) error {\n"
+	mut("C02", "(benign) validateV2FileContracts returns early when the transaction touches no contract", false, "",
+		Edit{"consensus/validation.go", v2fc, v2fc + "\tif len(txn.FileContracts) == 0 && len(txn.FileContractRevisions) == 0 && len(txn.FileContractResolutions) == 0 {\n\t\treturn nil\n\t}\n"})
+	mut("C02", "validateV2FileContracts returns early when no contract is formed (revisions and resolutions unchecked)", true, "use-guard|v2-",
+		Edit{"consensus/validation.go", v2fc, v2fc + "\tif len(txn.FileContracts) == 0 {\n\t\treturn nil\n\t}\n"})
+	res := "\tswitch r := res.Resolution.(type) {\n\tcase *V2FileContractRenewal:\n\t\te.WriteUint8(0)\n\tcase *V2StorageProof:\n\t\te.WriteUint8(1)\n\tcase *V2FileContractExpiration:\n\t\te.WriteUint8(2)\n\tdefault:\n\t\tpanic(fmt.Sprintf(\"unhandled resolution type %T\", r))\n\t}\n"
+	tagv := func(a, b string) string {
+		return "\tvar typ uint8\n\tswitch r := res.Resolution.(type) {\n\tcase *V2FileContractRenewal:\n\t\ttyp = 0\n\tcase *V2StorageProof:\n\t\ttyp = " + a + "\n\tcase *V2FileContractExpiration:\n\t\ttyp = " + b + "\n\tdefault:\n\t\tpanic(fmt.Sprintf(\"unhandled resolution type %T\", r))\n\t}\n\te.WriteUint8(typ)\n"
+	}
+	mut("C11", "(benign) resolution encoder computes the tag in a variable and writes it once", false, "", Edit{"types/encoding.go", res, tagv("1", "2")})
+	mut("C11", "resolution encoder computes the tag in a variable, proof and expiration tags swapped", true, "tag-map", Edit{"types/encoding.go", res, tagv("2", "1")})
+	wsh := "\tfor i := range txn.SiacoinInputs {\n\t\th.E.Write(s.replayPrefix())\n\t\ttxn.SiacoinInputs[i].EncodeTo(h.E)\n\t}\n\th.E.WriteUint64(uint64(len((txn.SiacoinOutputs))))\n\tfor i := range txn.SiacoinOutputs {\n\t\ttypes.V1SiacoinOutput(txn.SiacoinOutputs[i]).EncodeTo(h.E)"
+	mut("C12", "(benign) WholeSigHash computes the replay prefix once per input list", false, "",
+		Edit{"consensus/state.go", wsh, "\tif len(txn.SiacoinInputs) > 0 {\n\t\tprefix := s.replayPrefix()\n\t\tfor i := range txn.SiacoinInputs {\n\t\t\th.E.Write(prefix)\n\t\t\ttxn.SiacoinInputs[i].EncodeTo(h.E)\n\t\t}\n\t}\n\th.E.WriteUint64(uint64(len((txn.SiacoinOutputs))))\n\tfor i := range txn.SiacoinOutputs {\n\t\ttypes.V1SiacoinOutput(txn.SiacoinOutputs[i]).EncodeTo(h.E)"})
+	mut("C12", "WholeSigHash writes the replay prefix once for the whole input list", true, "replay-prefix|",
+		Edit{"consensus/state.go", wsh, "\tif len(txn.SiacoinInputs) > 0 {\n\t\tprefix := s.replayPrefix()\n\t\th.E.Write(prefix)\n\t\tfor i := range txn.SiacoinInputs {\n\t\t\ttxn.SiacoinInputs[i].EncodeTo(h.E)\n\t\t}\n\t}\n\th.E.WriteUint64(uint64(len((txn.SiacoinOutputs))))\n\tfor i := range txn.SiacoinOutputs {\n\t\ttypes.V1SiacoinOutput(txn.SiacoinOutputs[i]).EncodeTo(h.E)"})
+	tax := "\t\tif _, taxOverflow := fc.RenterOutput.Value.AddWithOverflow(fc.HostOutput.Value); taxOverflow {\n\t\t\toverflow = true\n\t\t\treturn\n\t\t}\n"
+	mut("C10", "v2 overflow pre-check computes the contract tax without its own renter+host overflow test", true, "sink-discharged|(consensus.State).V2FileContractTax:checked-arith:Add",
+		Edit{"consensus/validation.go", tax, ""})
+}
